@@ -262,6 +262,9 @@ func runC07(c *Ctx) {
 			return c.Path(call.Call.Args[0], env) == SD+".AnchorFrom"
 		}})
 	}
+	c.jwkValidateRules("C07.G1", "jws.JWK.Validate", jwkValidate, func(m string) pathPred {
+		return func(s string) bool { return s == "$0."+m }
+	})
 	c.Min("C07.G1", 80)
 
 	// ---------------- K1: configuration sinks
